@@ -26,6 +26,8 @@ var (
 	keepSMT  = flag.Bool("keep", false, "keep SMT files")
 )
 
+func flagCommandLineString(name, def, usage string) *string { return flag.String(name, def, usage) }
+
 func envOr(k, d string) string {
 	if v := os.Getenv(k); v != "" {
 		return v
@@ -49,6 +51,8 @@ func main() {
 		os.Exit(cmdDump())
 	case "replay":
 		os.Exit(cmdReplay())
+	case "baseline":
+		os.Exit(cmdBaseline())
 	default:
 		fmt.Fprintln(os.Stderr, "unknown command", cmd)
 		os.Exit(2)
@@ -202,6 +206,10 @@ func (e *Enc) finishModelTerms(entry *state) {
 			for k := 0; k < modelElems; k++ {
 				terms = append(terms, app("gstr.at", p.Term, fmt.Sprint(k)))
 			}
+		case "ptr":
+			for _, ft := range e.ptrFieldTerms(p) {
+				terms = append(terms, ft[1])
+			}
 		case "intslice":
 			terms = append(terms, app("s.base", p.Term), app("s.len", p.Term), app("s.cap", p.Term))
 			// element memory at entry
@@ -297,7 +305,7 @@ func runProp(p *Prog, prop string, secs int, smtDir string) ([]*funcResult, []st
 			jobs = append(jobs, job{r.enc, o})
 		}
 	}
-	solveAll(jobs, smtDir, secs, 8)
+	solveAll(jobs, smtDir, secs, 5)
 	return results, problems
 }
 
@@ -371,7 +379,7 @@ func cmdAll() int {
 			if *propFlag != "" && !hasProp(o.Props, *propFlag) {
 				continue
 			}
-			ok := (o.Cover && o.Result == "sat") || (!o.Cover && o.Result == "unsat")
+			ok := (o.Cover && o.Result != "unsat" && o.Result != "error") || (!o.Cover && o.Result == "unsat")
 			mark := "ok  "
 			if !ok {
 				mark = "FAIL"
@@ -384,7 +392,11 @@ func cmdAll() int {
 					if o.Result == "sat" {
 						fmt.Printf("      model: %s\n", modelSummary(o))
 					} else {
-						fmt.Printf("      out: %s\n", firstLines(o.Output, 4))
+						out := firstLines(o.Output, 4)
+						if len(out) > 400 {
+							out = out[:400] + "..."
+						}
+						fmt.Printf("      out: %s\n", out)
 					}
 				}
 			}
@@ -408,4 +420,89 @@ func modelSummary(o *Obligation) string {
 		}
 	}
 	return strings.Join(parts, " ")
+}
+
+// cmdBaseline records, for one property, the names of the obligations that discharge on the current tree.
+func cmdBaseline() int {
+	prop := *propFlag
+	pats := specPackages(prop)
+	p, err := loadProg(pats)
+	if err != nil {
+		fmt.Fprintln(os.Stderr, err)
+		return 2
+	}
+	dir, _ := os.MkdirTemp("", "govc-smt")
+	defer os.RemoveAll(dir)
+	secs := 10
+	if *timeoutS > 0 {
+		secs = *timeoutS
+	}
+	results, _ := runProp(p, prop, secs, dir)
+	var names []string
+	for _, r := range results {
+		if r.enc == nil {
+			continue
+		}
+		for _, o := range r.enc.obls {
+			if !hasProp(o.Props, prop) || o.Cover {
+				continue
+			}
+			if o.Result == "unsat" && o.Secs < float64(secs)/2 {
+				names = append(names, o.Name)
+			} else {
+				fmt.Printf("not in baseline: %s (%s %.1fs)\n", o.Name, o.Result, o.Secs)
+			}
+		}
+	}
+	sort.Strings(names)
+	b, _ := jsonMarshalIndent(baselineFile{Property: prop, Obligations: names})
+	_ = os.MkdirAll(filepath.Join(*verifDir, "baseline"), 0o755)
+	_ = os.WriteFile(filepath.Join(*verifDir, "baseline", prop+".json"), b, 0o644)
+	fmt.Printf("%s: %d obligations in baseline\n", prop, len(names))
+	return 0
+}
+
+// ptrFieldTerms lists (path, term) for the scalar/time fields of the struct a pointer parameter points to (entry state).
+func (e *Enc) ptrFieldTerms(p paramModel) [][2]string {
+	var out [][2]string
+	for _, prm := range e.root.Params {
+		if "p."+sanitize(prm.Name()) != strings.SplitN(p.Term, "!", 2)[0] {
+			continue
+		}
+		pt, ok := prm.Type().Underlying().(*types.Pointer)
+		if !ok {
+			continue
+		}
+		if _, ok := pt.Elem().Underlying().(*types.Struct); !ok {
+			continue
+		}
+		key := "mem:" + typeKey(pt.Elem()) + "@0"
+		c, ok := e.regionConst[key]
+		if !ok {
+			continue
+		}
+		var walk func(prefix, term string, t types.Type, depth int)
+		walk = func(prefix, term string, t types.Type, depth int) {
+			if isTime(t) {
+				out = append(out, [2]string{prefix + ".abs", app("t.abs", term)})
+				return
+			}
+			switch u := t.Underlying().(type) {
+			case *types.Basic:
+				if u.Info()&(types.IsInteger|types.IsBoolean|types.IsFloat) != 0 {
+					out = append(out, [2]string{prefix, term})
+				}
+			case *types.Struct:
+				if depth > 2 {
+					return
+				}
+				si := e.st.structOf(t)
+				for i := 0; i < u.NumFields(); i++ {
+					walk(prefix+"."+u.Field(i).Name(), app(si.fields[i], term), u.Field(i).Type(), depth+1)
+				}
+			}
+		}
+		walk("", app("select", c, p.Term), pt.Elem(), 0)
+	}
+	return out
 }
